@@ -182,6 +182,36 @@ def generate(rng, tier, seed):
                 c.fail("the object's KBPK changed although nothing assigned to it")
                 break
         yield c
+    # the Header object a KeyBlock was built on stays THE header of that object: after an unwrap (or load) through the KeyBlock, the
+    # object the caller still holds shows the new header completely - never the old fields with the new blocks or the reverse
+    for _ in range(30 if tier == "quick" else 200):
+        ver = rng.choice("ABCD")
+        kbpk = rb(rng, rng.choice([16, 24]))
+        h = make_header(rng, ver, rand_blocks(rng, rng.randrange(0, 3)))
+        c = Case("constructor-header-identity", {})
+        c.key = ("ctor-header", _)
+        kb = tr31.KeyBlock(kbpk, h)
+        other_ver = rng.choice([v for v in "ABCD" if len(kbpk) in VERS[v][1]])
+        h2 = make_header(rng, other_ver, rand_blocks(rng, rng.randrange(0, 3)))
+        key = rb(rng, 16)
+        g = tr31.wrap(kbpk, h2, key)
+        old_state = enc_header(h)
+        r = call_impl(kb.unwrap, (g,), stream="tr31")
+        if not r.ok or r.value != key:
+            c.fail("unwrap through a KeyBlock built on a caller's Header failed")
+        else:
+            now, want = enc_header(h), enc_header(h2)
+            if now != want and now != old_state:
+                c.fail(f"after unwrap the Header the KeyBlock was built on is neither the new header nor untouched: {now} (new: {want}, before: {old_state})")
+            if enc_header(kb.header) != want:
+                c.fail("after unwrap KeyBlock.header is not the unwrapped header")
+            if now == old_state and old_state != want:
+                # the caller's object was left alone: then a wrap through the KeyBlock must still not be driven by it half-way
+                pass
+            w1 = call_impl(kb.wrap, (rb(rng, 16),), stream="tr31")
+            if w1.ok and enc_header(tr31.unwrap(kbpk, w1.value)[0]) != want:
+                c.fail("wrap after unwrap does not carry the unwrapped header")
+        yield c
     n = 150 if tier == "quick" else 600
     for _ in range(n):
         kbpk = rb(rng, rng.choice([16, 24]))
